@@ -155,9 +155,10 @@ def main():
         ops = [('I', ('I',)), ('Dx1', ('D', 1)), ('X1', ('X', 1)), ('Dx2', ('D', 2)), ('X2', ('X', 2)), ('V', ('V',)),
                ('X2Dx1+cX1-3', ('subc', 'int', ('add', ('mul', ('X', 2), ('D', 1)), ('cmulL', 'T', ('X', 1))))),
                ('-Dx2/2', ('div', 'int', ('neg', ('D', 2)))), ('V*Dx1', ('mul', ('V',), ('D', 1))), ('c-X1', ('csub', 'T', ('X', 1)))]
-        if mode.endswith('hi'):
+        if mode.endswith('hi') or mode.endswith('lg'):
             pairs = [(0, 0), (1, 2), (2, 1), (3, 4)] if tier == 'quick' else [(0, 0), (1, 2), (2, 1), (3, 4), (4, 3), (1, 1), (5, 0), (0, 5), (6, 1), (7, 2)]
-            if mode == 'c07hi': ops_sel = [0, 1, 2, 3, 4] if tier == 'quick' else list(range(len(ops)))
+            if mode.endswith('lg'): pairs = [(0, 0), (1, 2), (2, 1), (5, 0), (0, 5), (3, 4)] if tier == 'quick' else pairs + [(8, 9)]
+            if mode in ('c07hi', 'c07lg'): ops_sel = ([0, 1, 2, 3, 4] + ([5, 8] if mode.endswith('lg') else [])) if tier == 'quick' else list(range(len(ops)))
             mode = mode[:-2]
         elif tier == 'quick':
             pairs = [(0, 0), (1, 1), (0, 2), (2, 0), (1, 2), (3, 0), (0, 4), (5, 0), (0, 5), (6, 1), (7, 2), (8, 9), (9, 8), (5, 5)]
@@ -180,13 +181,14 @@ def main():
                 f.write('}\n')
             files.append(fn)
     else:
-        hi = sys.argv[1].endswith('hi')
+        hi = sys.argv[1].endswith('hi') or sys.argv[1].endswith('lg')
+        sfx = sys.argv[1][3:]
         units = [('pair', a, b) for a, b in pairs] if mode == 'c06' else [('op', a, a) for a in (ops_sel if hi else range(len(ops)))] + [('link', a, b) for a, b in pairs]
         per = (len(units) + ntu - 1) // ntu
         for k in range(ntu):
             part = units[k * per:(k + 1) * per]
             if not part: continue
-            fn = os.path.join(outdir, '%s%s_gen_%d.cpp' % (mode.upper(), 'hi' if hi else '', k))
+            fn = os.path.join(outdir, '%s%s_gen_%d.cpp' % (mode.upper(), sfx, k))
             with open(fn, 'w') as f:
                 f.write('// generated by gen_exprs.py (%s tier)\n#include "harness.h"\n#include "gen/%s"\n' % (tier, common))
                 used = sorted(set(x for p in part for x in p[1:]))
